@@ -84,6 +84,9 @@ def nat(v, sentinel="0"):
     return str(v) if v is not None else sentinel
 
 
+NO_LIMIT = 18446744073709551615
+
+
 def boolean(v):
     return "true" if v else "false"
 
@@ -436,6 +439,15 @@ def gen_dns():
     parse = strip_comments(read(os.path.join(CORE, "dns/parse.rs")))
     depth = grab("dns.pointerDepthLimit", fn_body(parse, "get_domain_into"), r"if\s+depth\s*>\s*([0-9]+)\s*\{", "dns/parse.rs get_domain_into", lambda m: int(m.group(1)))
 
+    gdi = fn_body(parse, "get_domain_into")
+    gd = fn_body(parse, "get_domain")
+    m_oct = re.search(r"\*octets\s*\+=\s*1\s*\+\s*prefix\s+as\s+usize\s*;\s*if\s+\*octets\s*>\s*([0-9]+)\s*\{\s*return\s+Err", gdi or "")
+    m_init = re.search(r"get_domain_into\(\s*&mut\s+domainv\s*,\s*1\s*,\s*&mut\s+1\s*\)", gd or "")
+    no_limit = bool(gdi) and "octets" not in gdi and bool(gd) and re.search(r"get_domain_into\(\s*&mut\s+domainv\s*,\s*1\s*\)", gd) is not None
+    # a limit on the octets of a decoded name (length octets and root counted, accumulator starts at 1), or none at all
+    name_limit = int(m_oct.group(1)) if (m_oct and m_init) else (NO_LIMIT if no_limit else None)
+    status["dns.nameOctetLimit"] = {"ok": name_limit is not None, "value": name_limit, "where": "dns/parse.rs get_domain_into / get_domain"}
+
     def b(k):
         return boolean(faithful.get(k))
     sp = spl or [(0, 0), (0, 0), (0, 0)]
@@ -478,6 +490,10 @@ def pointerLimit : Nat := {nat(lim)}
 
 /-- the offset recorded for a written label: `u16::try_from(offset).unwrap_or(u16::MAX)` (true) or `offset as u16` (false) -/
 def offsetSaturates : Bool := {boolean(store_kind == "saturate")}
+
+/-- `*octets += 1 + prefix; if *octets > N {{ return Err }}` in `get_domain_into`, the count starting at 1 for the
+    root: decoded names longer than N octets are refused ({NO_LIMIT} = the source has no such test) -/
+def nameOctetLimit : Nat := {nat(name_limit)}
 
 /-- `if depth > N` in `get_domain_into` (first call has depth 1) -/
 def pointerDepthLimit : Nat := {nat(depth)}
